@@ -4,4 +4,5 @@ namespace SleapVerif.Arch
 theorem tableUnet_16_r1 : tableUnet 16 ⟨1, 1⟩ = true := by decide +kernel
 theorem tableUnet_16_r32 : tableUnet 16 ⟨3, 2⟩ = true := by decide +kernel
 theorem tableUnet_16_r2 : tableUnet 16 ⟨2, 1⟩ = true := by decide +kernel
+theorem tableUnetCpb1_16 : tableUnetCpb1 16 = true := by decide +kernel
 end SleapVerif.Arch
